@@ -4,6 +4,7 @@ usage: seed_verify.py <PID> <worktree>       (expects <worktree>/OUT/mutant_k.di
 import json, os, shutil, subprocess, sys, re
 
 pid, wt = sys.argv[1], sys.argv[2]
+offset = int(sys.argv[3]) if len(sys.argv) > 3 else 0
 env = dict(os.environ, PYTHONPATH=wt + "/src", PYTHONHASHSEED="0")
 env.pop("AUTOBAHN_VERIF", None)
 
@@ -47,7 +48,7 @@ for k in (1, 2, 3):
     ok = (rc0 == 0 and rc1 != 0 and t >= base)
     print("mutant %d: demo clean rc=%d, demo mutated rc=%d, tests %d/%d -> %s" % (k, rc0, rc1, t, base, "CONFIRMED" if ok else "REJECTED"))
     if ok:
-        dest = "/verif/seeded/%s-%d" % (pid, k)
+        dest = "/verif/seeded/%s-%d" % (pid, k + offset)
         os.makedirs(dest, exist_ok=True)
         shutil.copy(d, dest + "/patch.diff")
         shutil.copy(os.path.join(wt, "OUT", "demo_%d.py" % k), dest + "/demo.py")
